@@ -7,7 +7,11 @@
 (* verification schema and sends it through the real entry point:          *)
 (*   entry   which entry point receives it                                 *)
 (*   node    the kind of schema node the path addresses                    *)
-(*   path    how the path is bent (unknown / empty / extra elements ...)   *)
+(*   path    how the path is bent (unknown / empty / extra elements ...),  *)
+(*           absent altogether, or accompanied by a second update / path   *)
+(*           in the same request (compound shapes: the same update twice,  *)
+(*           the key-less path to a leaf of the list before / after an     *)
+(*           entry of that list whose key value is that leaf's name)       *)
 (*   key     how the keys of the last list element are bent                *)
 (*   val     the kind of value (every TypedValue variant, JSON documents   *)
 (*           of the right and the wrong type, nested, malformed ...)       *)
@@ -23,7 +27,10 @@ CONSTANTS Entries, Nodes, PathShapes, KeyShapes, ValKinds,
           MultiKeyNodes,  \* ... with more than one key
           ValuelessEntries, \* entry points that take a path only
           TextEntries,    \* entry points that carry values as text (XML)
-          TextVals        \* the value kinds that exist as text
+          TextVals,       \* the value kinds that exist as text
+          MultiEntries,   \* entry points whose request carries a sequence of updates / paths
+          CompoundPaths,  \* path shapes with a second update / path in the same request
+          KeylessPaths    \* ... where the second one is the key-less path to a leaf of the list
 
 Shape == [entry : Entries, node : Nodes, path : PathShapes, key : KeyShapes, val : ValKinds]
 Applicable(s) ==
@@ -31,6 +38,9 @@ Applicable(s) ==
    /\ (s.key = "one_missing") => s.node \in MultiKeyNodes
    /\ (s.entry \in ValuelessEntries) => s.val = "string"
    /\ (s.entry \in TextEntries) => s.val \in TextVals
+   /\ (s.path = "absent") => s.node = "root"
+   /\ (s.path \in CompoundPaths) => (s.entry \in MultiEntries /\ s.key = "ok")
+   /\ (s.path \in KeylessPaths) => s.node \in ListNodes
 Shapes == {s \in Shape : Applicable(s)}
 
 \* the string level: every string over an alphabet up to a length goes through the path parser family
